@@ -309,7 +309,7 @@ class C02(Sim):
             return call(M.mesh.from_arrays, V, E, F, C)
         self.probes["file_path"] += 1
         ext, writer = {"file_obj": ("obj", write_obj), "file_medit": ("mesh", write_medit), "file_tet": ("tet", write_tet)}[path]
-        fname = "/sim/%s.%s" % (ev["slot"], ext)
+        fname = self.fs.root + "%s.%s" % (ev["slot"], ext)
         self.fs.files[fname] = writer(s).encode()
         return call(M.mesh.load, fname)
 
@@ -445,6 +445,7 @@ class C02(Sim):
             helper.border_e = sorted(ref.eid[k] for k in bk)
             helper.interior_e = sorted(set(range(len(ref.edges))) - set(helper.border_e))
             names = ["f2c", "c2f", "c2c", "v2c", "c2e", "e2c", "e2f", "in_cell_face_index", "common_face", "other_face_side", "boundary_faces",
+                     "interior_faces", "boundary_edges", "interior_edges", "boundary_vertices", "interior_vertices",
                      "is_face_on_border", "is_edge_on_border", "is_vertex_on_border", "f2e", "edge_id", "face_id"]
             Qt, judge = c03.Q, lambda q, mode, got, exp: c03.judge(mode, got, exp, True)
         elif nf.dim == 2 and is_oriented_manifold(n, fl):
